@@ -253,6 +253,15 @@ func tablesChecker(cr *checkRun) {
 				for _, c := range []rune{'<', '&'} {
 					add(fmt.Sprintf("%s.%s#has[%q]", shortName(t.pkg), t.name, c), have[c], fmt.Sprintf("the reverse table re-escapes %q", c))
 				}
+				// XML 1.0 2.11: a literal CR is turned into LF by end-of-line handling; 3.3.3: a literal tab, LF or CR in an
+				// attribute value is normalised to a space - a decoded reference to one of them must go back as a reference
+				ws := []rune{'\r'}
+				if t.name == "AttrRevEntitiesMap" {
+					ws = []rune{'\t', '\n', '\r'}
+				}
+				for _, c := range ws {
+					add(fmt.Sprintf("%s.%s#has[%q]", shortName(t.pkg), t.name, c), have[c], fmt.Sprintf("the reverse table re-escapes %q (it would not survive re-parsing as a literal)", c))
+				}
 			}
 		}
 	}
@@ -418,8 +427,11 @@ func tableVerdict(cr *checkRun, kfs []KnownFinding, obls []tblOblig, label strin
 		matchedKnown := false
 		if !o.ok {
 			for _, kf := range kfs {
-				if kf.Status == "open" && kf.Property == cr.prop.ID && kf.Match != "" && strings.Contains(o.name, kf.Match) {
+				if kf.Status == "open" && kf.Match != "" && strings.Contains("table:"+o.name, kf.Match) {
 					matchedKnown = true
+					if kf.Property == cr.prop.ID {
+						cr.knownHit[kf.ID] = "table:" + o.name // printed as KNOWN-FINDING; for the other properties that run the tables it is a foreign finding
+					}
 				}
 			}
 		}
